@@ -52,6 +52,10 @@ func (v val) String() string {
 		return "err!"
 	case vStack:
 		return "<stack>"
+	case vBool:
+		if v.bk {
+			return fmt.Sprintf("%v", v.b)
+		}
 	}
 	if v.desc != "" {
 		return v.desc
@@ -64,6 +68,7 @@ type callRec struct {
 	args   []val
 	recv   *val
 	pos    token.Pos
+	seq    int
 }
 
 type assignRec struct {
@@ -71,6 +76,7 @@ type assignRec struct {
 	rhs val
 	src string
 	pos token.Pos
+	seq int
 }
 
 type sstate struct {
@@ -85,6 +91,7 @@ type sstate struct {
 	calls   []callRec
 	assigns []assignRec
 	maxSlot int // deepest entry slot touched (-1 none)
+	seq     int
 	und     []string
 	undPos  []token.Pos
 }
@@ -196,6 +203,7 @@ type symExec struct {
 	params   map[types.Object]string
 	overflow bool
 	inlineMemo map[*types.Func]bool
+	inlineAll  bool
 }
 
 type pathResult struct {
@@ -224,9 +232,7 @@ func newSymExec(c *Ctx, rel string) *symExec {
 	if se.stackFld == nil {
 		panic("py.Frame.Stack not found")
 	}
-	if rel != "vm" {
-		se.stackFld = nil
-	}
+	se.inlineAll = rel == "compile"
 	// module functions that assign the Stack field (outside package vm they make an external call opaque)
 	se.stackWriters = map[*types.Func]bool{}
 	for _, pk := range c.ModulePkgs() {
@@ -361,7 +367,7 @@ func (se *symExec) execStmt(s ast.Stmt, st *sstate) (fall []*sstate, rets []path
 			if e.v.kind == vInt {
 				nv = val{kind: vInt, lin: e.v.lin.add(linConst(d))}
 			}
-			se.assignTo(x.X, nv, e.st, x.Pos(), "")
+			se.assignTo(x.X, nv, e.st, x.Pos(), se.canon(x.X)+x.Tok.String())
 			fall = append(fall, e.st)
 		}
 		return
@@ -619,7 +625,8 @@ func (se *symExec) assignTo(lhs ast.Expr, v val, st *sstate, pos token.Pos, src 
 			st.undecided(pos, "assignment to the evaluation stack with a value the interpreter cannot model")
 			return
 		}
-		st.assigns = append(st.assigns, assignRec{lhs: se.canon(l), rhs: v, src: src, pos: pos})
+		st.seq++
+		st.assigns = append(st.assigns, assignRec{lhs: se.canon(l), rhs: v, src: src, pos: pos, seq: st.seq})
 		return
 	case *ast.IndexExpr:
 		if se.isStack(l.X) {
@@ -636,10 +643,12 @@ func (se *symExec) assignTo(lhs ast.Expr, v val, st *sstate, pos token.Pos, src 
 			st.conc = false
 			return
 		}
-		st.assigns = append(st.assigns, assignRec{lhs: se.canon(l), rhs: v, src: src, pos: pos})
+		st.seq++
+		st.assigns = append(st.assigns, assignRec{lhs: se.canon(l), rhs: v, src: src, pos: pos, seq: st.seq})
 		return
 	case *ast.StarExpr:
-		st.assigns = append(st.assigns, assignRec{lhs: se.canon(l), rhs: v, src: src, pos: pos})
+		st.seq++
+		st.assigns = append(st.assigns, assignRec{lhs: se.canon(l), rhs: v, src: src, pos: pos, seq: st.seq})
 		return
 	}
 	st.undecided(pos, "assignment target %s not handled", exprStr(lhs))
@@ -733,7 +742,11 @@ func (se *symExec) eval(e ast.Expr, st *sstate) []ev {
 			}
 			var out []ev
 			for _, r := range se.evalList(elts, st) {
-				out = append(out, ev{r.st, unk("composite")})
+				var ds []string
+				for _, v := range r.vs {
+					ds = append(ds, v.String())
+				}
+				out = append(out, ev{r.st, unk("composite[" + strings.Join(ds, ",") + "]")})
 			}
 			return out
 		}
@@ -792,6 +805,8 @@ func (se *symExec) eval(e ast.Expr, st *sstate) []ev {
 				out = append(out, ev{r.st, val{kind: vBool, bk: true, b: !r.v.b}})
 			case x.Op == token.NOT:
 				out = append(out, ev{r.st, val{kind: vBool, desc: "!" + r.v.desc}})
+			case x.Op == token.AND:
+				out = append(out, ev{r.st, r.v})
 			default:
 				out = append(out, ev{r.st, unk(se.canon(x))})
 			}
@@ -1542,8 +1557,8 @@ func (se *symExec) evalCallMulti(call *ast.CallExpr, st *sstate) []pathResult {
 				continue
 			}
 		}
-		if fn != nil && se.stackWriters[fn] {
-			c.st.undecided(call.Pos(), "call to %s, which assigns the frame's evaluation stack", FuncID(fn))
+		if fn != nil && se.stackWriters[fn] && se.passesFrame(call) {
+			c.st.undecided(call.Pos(), "call to %s, which assigns the evaluation stack of the frame it is given", FuncID(fn))
 		}
 		name := "<dynamic>"
 		if fn != nil {
@@ -1551,7 +1566,8 @@ func (se *symExec) evalCallMulti(call *ast.CallExpr, st *sstate) []pathResult {
 		} else {
 			name = "dyn:" + se.canon(call.Fun)
 		}
-		c.st.calls = append(c.st.calls, callRec{callee: name, args: c.args, recv: c.recv, pos: call.Pos()})
+		c.st.seq++
+		c.st.calls = append(c.st.calls, callRec{callee: name, args: c.args, recv: c.recv, pos: call.Pos(), seq: c.st.seq})
 		// a trivial getter of another package: `func (l *List) Len() int { return len(l.Items) }`
 		var rets []val
 		for i := 0; i < nres; i++ {
@@ -1609,7 +1625,7 @@ func (se *symExec) worthInlining(fn *types.Func) bool {
 	if fd == nil || fd.Body == nil {
 		return false
 	}
-	res := se.stackFld == nil // in packages without a stack notion inline everything
+	res := se.inlineAll // the compiler's table helpers are all inlined
 	if !res {
 		res = se.mentionsStackShallow(fd)
 	}
@@ -1637,6 +1653,26 @@ func (se *symExec) worthInlining(fn *types.Func) bool {
 	}
 	se.inlineMemo[fn] = res
 	return res
+}
+
+// passesFrame: the call hands a *py.Frame (receiver or argument) to the callee.
+func (se *symExec) passesFrame(call *ast.CallExpr) bool {
+	isFrame := func(e ast.Expr) bool {
+		tv, ok := se.info.Types[e]
+		if !ok {
+			return false
+		}
+		return strings.HasSuffix(namedTypeName(tv.Type), "py.Frame")
+	}
+	if sel, ok := unparen(call.Fun).(*ast.SelectorExpr); ok && isFrame(sel.X) {
+		return true
+	}
+	for _, a := range call.Args {
+		if isFrame(a) {
+			return true
+		}
+	}
+	return false
 }
 
 func (se *symExec) onStack(fn *types.Func) bool {
@@ -1789,6 +1825,20 @@ func (se *symExec) evalBuiltin(name string, call *ast.CallExpr, st *sstate) []pa
 		return out
 	case "panic":
 		return nil
+	case "copy":
+		// copy(dst, src): dst now holds src's elements
+		var out []pathResult
+		for _, r := range se.evalList(call.Args, st) {
+			if id := identOf(call.Args[0]); id != nil && len(r.vs) == 2 {
+				if obj := se.info.Uses[id]; obj != nil {
+					nv := unk("copy-of[" + r.vs[1].String() + "]")
+					nv.lin = r.vs[0].lin
+					r.st.vars[obj] = nv
+				}
+			}
+			out = append(out, pathResult{r.st, []val{unk("copy")}})
+		}
+		return out
 	}
 	var out []pathResult
 	for _, r := range se.evalList(call.Args, st) {
